@@ -396,6 +396,24 @@ Definition cdb_can_add (classes : list (list Z)) (cls : list Z) : bool :=
 Definition cdb_checked_add (classes : list (list Z)) (cls : list Z) : list (list Z) :=
   if cdb_can_add classes cls then (if existsb (set_eqb cls) classes then classes else classes ++ [cls]) else classes.
 
+(* ClassDefBuilder::checked_add as the public API sees it: the return value and the new state *)
+Definition cdb_checked_add_ret (classes : list (list Z)) (cls : list Z) : bool * list (list Z) :=
+  (cdb_can_add classes cls, cdb_checked_add classes cls).
+(* ClassDefBuilder::build_with_mapping: classes.sort_unstable_by_key(|cls| (Reverse(cls.len()), first glyph)); ids are the
+   positions (+1 unless use_class_0).  Accepted classes are pairwise disjoint, so the keys are distinct. *)
+Definition cls_size (c : list Z) : Z := zlen (sort_dedup c).
+Definition cls_first (c : list Z) : Z := match sort_dedup c with [] => 0 | g :: _ => g end.
+Definition cls_key_lt (a b : list Z) : bool :=
+  (cls_size b <? cls_size a) || ((cls_size a =? cls_size b) && (cls_first a <? cls_first b)).
+Fixpoint cls_insert (c : list Z) (l : list (list Z)) : list (list Z) :=
+  match l with [] => [c] | x :: r => if cls_key_lt c x then c :: l else x :: cls_insert c r end.
+Definition cdb_order (classes : list (list Z)) : list (list Z) := fold_right cls_insert [] classes.
+Fixpoint cdb_class_in (ordered : list (list Z)) (id : Z) (g : Z) : Z :=
+  match ordered with [] => 0 | c :: r => if zmem g c then id else cdb_class_in r (id + 1) g end.
+(* the class the built ClassDef answers for g (0 = unassigned; with use_class_0 the largest class is 0 too) *)
+Definition cdb_class_of (use0 : bool) (classes : list (list Z)) (g : Z) : Z :=
+  cdb_class_in (cdb_order classes) (if use0 then 0 else 1) g.
+
 Section ClassPairs.
 Context {V : Type}.
 (* ClassPairPosSubtable: classdef_1, classdef_2, items (BTreeMap keyed by the two sets: insert overwrites) *)
@@ -508,7 +526,9 @@ Inductive case :=
 | CSplitCount (pieces : list Z) (declared : Z)
   (* the insert_ligature calls for one ligature glyph (class, per component the anchor id or -1), the class count, and
      the compiled LigatureAttach rows (component x class, anchor id or -1) *)
-| CLigSeq (calls : list (Z * list Z)) (ncls : Z) (rows : list (list Z)).
+| CLigSeq (calls : list (Z * list Z)) (ncls : Z) (rows : list (list Z))
+  (* a sequence of ClassDefBuilder::checked_add calls with the value each returned, then build(): class of each probe glyph *)
+| CCdbSeq (use0 : bool) (calls : list (list Z * bool)) (probes : list (Z * Z)).
 
 Definition probes_ok (f : Z -> Z) (probes : list (Z * Z)) : bool :=
   forallb (fun p => f (fst p) =? snd p) probes.
@@ -585,6 +605,13 @@ Definition check_case (c : case) : bool :=
                      rows
       | None => false
       end
+  | CCdbSeq use0 calls probes =>
+      let '(ok, classes) :=
+        fold_left (fun (acc : bool * list (list Z)) (c : list Z * bool) =>
+                     let '(r, st) := cdb_checked_add_ret (snd acc) (fst c) in
+                     (fst acc && Bool.eqb r (snd c), st))
+                  calls (true, []) in
+      ok && probes_ok (cdb_class_of use0 classes) probes
   | CPromote before after promoted ext_types =>
       let '(ty, fl, mfs, n) := before in
       let l := {| lk_type := ty; lk_flags := fl; lk_mfs := (if mfs <? 0 then None else Some mfs);
